@@ -7,4 +7,10 @@ TEXT = {
         "note": "Trusted: memnet.Mem / net/http (PipeNet) as carriers, google.golang.org/protobuf equality, the harness's deterministic payload function. Custom user codecs are outside the domain.",
         "technique": "property-based testing (rapid): model-based round-trip over generated message sequences and configurations, poisoned buffer pool (tag verif)",
     },
+    "C03": {
+        "text": "Exploration with an exhaustive core: every one of the 2^(n-1) segmentations (× EOF with the last bytes / separately) of small valid bodies (≤13 bytes quick, ≤16 thorough) is enumerated for every protocol and direction; larger generated bodies are split byte-wise, at single cuts, around envelope prefixes, at powers of two and at random cut sets. Oracle is metamorphic: same bytes, different read boundaries ⇒ identical observable outcome. Not a proof for all bodies.",
+        "design_ref": "DESIGN.md §5 C03",
+        "note": "Trusted: refwire builds valid bodies; ChunkReader returns exactly the chosen pieces; outcome comparison covers messages, error code/message/metadata, headers, trailers and the handler's response bytes.",
+        "technique": "property-based testing (rapid) + exhaustive enumeration of segmentations: metamorphic relation one-piece vs segmented delivery",
+    },
 }
